@@ -78,6 +78,7 @@ type run struct {
 	v     *xfer.Verdict
 	calls []*call
 	pre   string // signature prefix: transport/scenario/variant
+	arm   func(bool) // opens / closes the window in which the explorer may deviate
 }
 
 func (r *run) add(symptom, format string, a ...any) {
@@ -197,12 +198,13 @@ type params struct {
 	Closer string
 	Idle   time.Duration
 	Ds     int
+	At     time.Duration // the closer acts at this absolute virtual time (0 = 500 ms after the readers blocked): 5 s and 10 s are the instants of the mux housekeeping tick
 	Stalls bool // goroutines may also be held up for 20 ms / 2 s before an atomic write (a deviation)
 	Seed   int64
 }
 
 func (p params) String() string {
-	return fmt.Sprintf("udp=%v scenario=%s closer=%s idle=%v stalls=%v seed=%d", p.UDP, p.Kind, p.Closer, p.Idle, p.Stalls, p.Seed)
+	return fmt.Sprintf("udp=%v scenario=%s closer=%s idle=%v at=%v stalls=%v seed=%d", p.UDP, p.Kind, p.Closer, p.Idle, p.At, p.Stalls, p.Seed)
 }
 
 // pair opens one proxy connection and returns both application ends.
@@ -287,6 +289,7 @@ func run1(p params, ctl *explore.Ctl) explore.Result {
 	if ctl != nil {
 		ctl.Open = func(kind byte, tag string) bool { return armed }
 	}
+	r.arm = func(b bool) { armed = b }
 	ex := world.Run(cfg, ctl, func(w *world.World) {
 		r.w = w
 		if p.Kind == "write-then-close" {
@@ -435,7 +438,14 @@ func blockedReaders(r *run, p params, cc, sc net.Conn) {
 	buf1, buf2 := make([]byte, 16), make([]byte, 16)
 	r.bg(&g, "Read(client conn, blocked)", "client", func(c *call) { c.releasedBy = &at }, func() (int, error) { return cc.Read(buf1) })
 	r.bg(&g, "Read(server conn, blocked)", "server", func(c *call) { c.releasedBy = &at }, func() (int, error) { return sc.Read(buf2) })
-	vsched.Sleep(500 * time.Millisecond)
+	if d := int64(p.At) - r.w.S.NowNS(); p.At > 0 && d > 0 {
+		// deviations are explored from the instant of the tick on, not during the wait for it
+		r.arm(false)
+		vsched.Sleep(time.Duration(d))
+		r.arm(true)
+	} else {
+		vsched.Sleep(500 * time.Millisecond)
+	}
 	closer(r, p, cc, sc, &at)
 	// the end that was not closed explicitly is released by its peer's close; afterwards
 	// a further Read and Write at each end must return at once
@@ -719,6 +729,9 @@ func units(tier string) []runner.Unit {
 		seed++
 		p.Seed = seed
 		name := fmt.Sprintf("%s-%s-udp=%v-idle=%v", p.Kind, p.Closer, p.UDP, p.Idle)
+		if p.At > 0 {
+			name += fmt.Sprintf("-at=%v", p.At)
+		}
 		if p.Ds > 0 {
 			name += fmt.Sprintf("-ds%d", p.Ds)
 		}
@@ -756,6 +769,16 @@ func units(tier string) []runner.Unit {
 		if udp {
 			add(params{UDP: udp, Kind: "one-way-blackhole", Closer: "client-to-server-lost"}, 4)
 			add(params{UDP: udp, Kind: "one-way-blackhole", Closer: "server-to-client-lost"}, 4)
+		}
+		// the closer acts at the very instant of the 5 s housekeeping tick of the muxes: every order
+		// of the tick's goroutine and the closer (<=1 deviation)
+		for _, cl := range []string{"client-stop", "server-stop", "both-stop", "client-conn"} {
+			for _, at := range []time.Duration{5 * time.Second, 10 * time.Second} {
+				if tier != "thorough" && (at == 10*time.Second && cl != "both-stop") {
+					continue
+				}
+				add(params{UDP: udp, Kind: "blocked-readers", Closer: cl, At: at, Ds: 1}, 12)
+			}
 		}
 		// schedules around the close
 		ds := 1
